@@ -21,6 +21,13 @@ def groupsD (op : String) (args : List Nat) : Option String :=
   | "padids" => some <| match runP (do let pad ← pNat; let rows ← pList pNats; pure (pad, rows)) args with
       | some (pad, rows) => let (m, l) := padIds rows pad; ok (eList eNats m ++ eNats l)
       | none => reject
+  | "tensorize" => some <| match runP (do let k ← pNat; let pad ← pNat; let tpad ← pNat; let rows ← pList pNats; let trows ← pList pNats; let lrows ← pList pNats; pure (k, pad, tpad, rows, trows, lrows)) args with
+      | some (k, pad, tpad, rows, trows, lrows) =>
+        if k > 3 || trows.length != rows.length || lrows.length != rows.length then reject else
+        let t := tensorize k pad tpad rows trows lrows
+        ok (eList eNats t.ids ++ eNats t.lens ++ eList eNats t.labels ++
+          (match t.target with | some (m, l) => [1] ++ eList eNats m ++ eNats l | none => [0]))
+      | none => reject
   | _ => none
 
 end Tu.Drive
